@@ -186,10 +186,10 @@ def answers(cops, cout):
     return out
 
 
-def run_vf(cases, model=True, variant="san", timeout=1800, env=None):
+def run_vf(cases, model=True, variant="san", timeout=1800, env=None, wrap=None):
     """two-phase run: harness on every case, then the model on the page tables the harness printed.
     Returns per case {ops, c, crash, err, ans, dis:[(op, text)], mlines}"""
-    hres = vlib.run_harness_only("c07", cases, variant=variant, timeout=timeout, env_extra=env)
+    hres = vlib.run_harness_only("c07", cases, variant=variant, timeout=timeout, env_extra=env, wrap=wrap)
     out = []
     mcases, midx = [], []
     for i, r in enumerate(hres):
